@@ -7,8 +7,9 @@ CONSTANTS
   ShardLeaves = 2
   Birthday = 2
   MaxTop = 11
-  MaxOps = 5
-  MaxNotes = 2
+  MaxOps = 3
+  MaxNotes = 1
+  Menu = 2
 VIEW View
 INVARIANTS FoldEq LayerB Contiguous ScannedExact NoneLost BelowBirthday NoOpenAdjacent ChainedIsUnion SameAsLayerA
 PROPERTIES ScanCovers TipMonotone
